@@ -332,20 +332,23 @@ def _array_level(ctx, path, model, dt, what="load_values_and_dt"):
 
 
 def _object_level(ctx, path, model, dt, m, label):
-    _check_obj(ctx, ctx.lib(eqsig.load_signal, path, astype="signal"), "signal", model, dt, 1.0,
+    # optional arguments by keyword or - in every other case - positionally in the documented order:
+    # load_signal(ffp, astype), load_sig(ffp, m), load_asig(ffp, load_label, m)
+    form = "pos" if (model.n + len(label or "")) % 2 == 0 else "kw"
+    _check_obj(ctx, ctx.libf(form, eqsig.load_signal, ["astype"], path, astype="signal"), "signal", model, dt, 1.0,
                "load_signal(astype='signal')")
-    _check_obj(ctx, ctx.lib(eqsig.load_signal, path, astype="acc_sig"), "acc_sig", model, dt, 1.0,
+    _check_obj(ctx, ctx.libf(form, eqsig.load_signal, ["astype"], path, astype="acc_sig"), "acc_sig", model, dt, 1.0,
                "load_signal(astype='acc_sig')")
     if m is None:
         mm = 1.0
         sig = ctx.lib(eqsig.load_sig, path)
-        asig = ctx.lib(eqsig.load_asig, path, load_label=True)
+        asig = ctx.libf(form, eqsig.load_asig, ["load_label", "m"], path, load_label=True)
         asig2 = ctx.lib(eqsig.load_asig, path)
     else:
         mm = m
-        sig = ctx.lib(eqsig.load_sig, path, m=m)
-        asig = ctx.lib(eqsig.load_asig, path, load_label=True, m=m)
-        asig2 = ctx.lib(eqsig.load_asig, path, load_label=False, m=m)
+        sig = ctx.libf(form, eqsig.load_sig, ["m"], path, m=m)
+        asig = ctx.libf(form, eqsig.load_asig, ["load_label", "m"], path, load_label=True, m=m)
+        asig2 = ctx.libf(form, eqsig.load_asig, ["load_label", "m"], path, load_label=False, m=m)
     _check_obj(ctx, sig, "signal", model, dt, mm, "load_sig")
     _check_obj(ctx, asig, "acc_sig", model, dt, mm, "load_asig(load_label=True)")
     got = ctx.lib(lambda: asig.label)
